@@ -255,4 +255,116 @@ theorem map_failed (fl : Flags) (env : Env) (e : Schema) (d : Option (List (Str 
     simp only [List.map_map, List.mem_map]
     exact ⟨(k, x), hx, rfl⟩
 
+/-! ## plugin positions -/
+
+/-- the registered alternative of that name in the schema -/
+def altOf : Alts → Str → Option (Bool × Schema)
+  | .nil, _ => none
+  | .cons n l s rest, name => if n == name then some (l, s) else altOf rest name
+
+theorem decodeAlt_eq (fl : Flags) (env : Env) : ∀ (alts : Alts) (name : Str) (v : Val),
+    decodeAlt fl env alts name v = (altOf alts name).map fun ls => (ls.1, decode fl env ls.2 v)
+  | .nil, _, _ => by simp [decodeAlt, altOf]
+  | .cons n l s rest, name, v => by
+    rw [decodeAlt, altOf]
+    split
+    · simp
+    · exact decodeAlt_eq fl env rest name v
+
+theorem typeEntries_cons_type (tk : Str) (name : Str) (kvs : List (Str × Val)) (htk : isTypeKey tk = true)
+    (hno : typeEntries kvs = []) : typeEntries ((tk, .str name) :: kvs) = [.str name] := by
+  unfold typeEntries at hno ⊢
+  simp only [List.filter, htk, List.map_cons]
+  rw [hno]
+
+theorem filter_eq_nil_of_map {α β} {p : α → Bool} {f : α → β} {l : List α} (h : (l.filter p).map f = []) : l.filter p = [] := by
+  cases hl : l.filter p with
+  | nil => rfl
+  | cons x xs => rw [hl] at h; simp at h
+
+theorem dropType_cons_type (tk : Str) (w : Val) (kvs : List (Str × Val)) (htk : isTypeKey tk = true)
+    (hno : typeEntries kvs = []) : dropType ((tk, w) :: kvs) = kvs := by
+  unfold typeEntries at hno
+  have hf := filter_eq_nil_of_map hno
+  unfold dropType
+  simp only [List.filter, htk, Bool.not_true]
+  rw [List.filter_eq_self]
+  intro kv hkv
+  have : ¬ (isTypeKey kv.1 = true) := by
+    intro ht
+    have : kv ∈ kvs.filter fun kv => isTypeKey kv.1 := List.mem_filter.mpr ⟨hkv, ht⟩
+    rw [hf] at this
+    cases this
+  simp [this]
+
+theorem plugin_rejects (fl : Flags) (env : Env) (pi : PInfo) (alts : Alts) (tk name : Str) (kvs : List (Str × Val))
+    (lzy : Bool) (s : Schema)
+    (htk : isTypeKey tk = true) (hno : typeEntries kvs = []) (hname : pi.names.contains name = true)
+    (halt : altOf alts name = some (lzy, s))
+    (hfail : settle (decode fl env s (.map kvs)) ≠ [] ∨ (decode fl env s (.map kvs)).later ≠ []) :
+    R.failed (decode fl env (.plugin pi alts) (.map ((tk, .str name) :: kvs))) := by
+  have hte := typeEntries_cons_type tk name kvs htk hno
+  have hdt := dropType_cons_type tk (.str name) kvs htk hno
+  have hda : decodeAlt fl env alts name (.map kvs) = some (lzy, decode fl env s (.map kvs)) := by
+    rw [decodeAlt_eq, halt]; rfl
+  simp only [decode, hte, hdt, hname, hda, Bool.not_true, Bool.false_eq_true, if_false]
+  generalize decode fl env s (.map kvs) = r at hfail
+  cases lzy
+  · simp only [Bool.false_eq_true, if_false]
+    by_cases hs : (settle r).isEmpty = true
+    · simp only [hs, if_true]
+      right
+      rcases hfail with h | h
+      · exact absurd (List.isEmpty_iff.mp hs) h
+      · exact h
+    · simp only [hs]
+      left
+      intro h; apply hs; simp at h; simp [h]
+  · simp only [if_true]
+    right
+    by_cases hs : (settle r).isEmpty = true
+    · simp only [hs, if_true]
+      rcases hfail with h | h
+      · exact absurd (List.isEmpty_iff.mp hs) h
+      · exact h
+    · simp only [hs]
+      intro h; apply hs; simp at h; simp [h]
+
+theorem settle_ne_nil_of_errs {r : R} (h : r.errs ≠ []) : settle r ≠ [] := by
+  unfold settle
+  cases he : r.errs with
+  | nil => exact absurd he h
+  | cons x xs => simp
+
+theorem plugin_failed (fl : Flags) (env : Env) (pi : PInfo) (alts : Alts) (tk name : Str) (kvs : List (Str × Val))
+    (lzy : Bool) (s : Schema)
+    (htk : isTypeKey tk = true) (hno : typeEntries kvs = []) (hname : pi.names.contains name = true)
+    (halt : altOf alts name = some (lzy, s)) (hfail : R.failed (decode fl env s (.map kvs))) :
+    R.failed (decode fl env (.plugin pi alts) (.map ((tk, .str name) :: kvs))) := by
+  apply plugin_rejects fl env pi alts tk name kvs lzy s htk hno hname halt
+  rcases hfail with h | h
+  · exact Or.inl (settle_ne_nil_of_errs h)
+  · exact Or.inr h
+
+/-! ## top level -/
+
+theorem rejected_of_failed (fl : Flags) (env : Env) (s : Schema) (cfg : Val) (h : R.failed (decode fl env s cfg)) :
+    (decodeAndValidate fl env s cfg).rejected = true := by
+  unfold decodeAndValidate
+  generalize decode fl env s cfg = r at h
+  simp only
+  split
+  · rfl
+  · split
+    · rfl
+    · rename_i h1 h2
+      rcases h with h | h
+      · have := settle_ne_nil_of_errs h
+        cases hs : settle r with
+        | nil => exact absurd hs this
+        | cons x xs => simp [hs] at h1
+      · cases hl : r.later with
+        | nil => exact absurd hl h
+        | cons x xs => simp [hl] at h2
+
 end Pandora.Proofs.C17
